@@ -621,6 +621,9 @@ func familyFunc(tier string) []tmpl {
 		}
 	}
 	// variadic functions: every position is checked
+	out = append(out, call("merge", hField("a"), hField("b"), hCur()), call("merge", hLit("{}"), hField("a"), hField("b")), call("merge", hField("a"), hLit("{}"), hField("b")),
+		call("merge", hField("a"), hLit(`{"z":1}`)), call("merge", hLit(`{"z":1}`), hField("a"), hCur()), hList(call("not_null", hField("a")), call("not_null", hField("a"), hField("b"))),
+		hList(call("merge", hField("a")), call("merge", hField("a"), hField("b"))))
 	out = append(out, call("merge", hField("a"), hField("b")), call("merge", hField("a"), hField("b"), hField("a")),
 		call("not_null", hField("a"), hField("b")), call("not_null", hField("a"), ref(hCur())), call("not_null", ref(hCur()), hField("a")),
 		call("merge", hField("a"), ref(hCur())), call("merge"), call("not_null"))
